@@ -49,6 +49,37 @@ def script(c):
     return pre + f"var res = {call}; [res, calls, inp, inp2]" if fn != "for_each" else pre + f"{call}; [0, calls, inp, inp2]"
 
 
+def range_script(c):
+    """the input is a range OBJECT held in a variable; afterwards it is drained to see what it still spans"""
+    fn, a, b, n, cb, form = c["fn"], c["a"], c["b"], c["n"], c["cb"], c["form"]
+    mk = {"range": "range(src)", "retro": "retro(range(src))", "range_of_range": "range(range(src))"}[form]
+    pre = f"var src = {vec(a)}; var inp2 = {vec(b)}; var calls = Vector(); var inp = {mk}; "
+    p1 = lambda body: f"fun[calls](x) {{ calls.push_back([x]); {body} }}"
+    p2 = lambda body: f"fun[calls](a, b) {{ calls.push_back([a, b]); {body} }}"
+    call = {
+        "for_each": lambda: f"for_each(inp, {p1('0')}); 0",
+        # the two-argument map builds `new(container)`, which a range is not: the inserter form is the one that accepts ranges
+        "map": lambda: f"var out = Vector(); map(inp, {p1(F1[cb])}, back_inserter(out)); out",
+        "any_of": lambda: f"any_of(inp, {p1(PRED[cb])})",
+        "all_of": lambda: f"all_of(inp, {p1(PRED[cb])})",
+        "foldl": lambda: f"foldl(inp, {p2(F2[cb])}, {n})",
+        "sum": lambda: "sum(inp)", "product": lambda: "product(inp)",
+        "contains": lambda: f"contains(inp, {n})",
+        "zip": lambda: "zip(inp, inp2)",
+        "zip_with": lambda: f"zip_with({p2(F2[cb])}, inp, inp2)",
+        "join": lambda: 'join(inp, "-")',
+    }[fn]()
+    drain = "var rest = Vector(); while (!inp.empty()) { rest.push_back(inp.front()); inp.pop_front() }; "
+    return pre + f"var res = fun[inp, inp2, calls]() {{ {call} }}(); " + drain + "[res, calls, rest, src]"
+
+
+def range_expected(c):
+    c2 = dict(c)
+    c2["b"] = c["a"]            # slot 4 of the result is the source vector
+    c2["a"] = c["rest"]         # slot 3 is what the caller's range still spans
+    return expected(c2)
+
+
 def str_script(c):
     lit = lambda x: json.dumps(x)
     if c["fn"] == "join_ints":
@@ -126,8 +157,12 @@ def run(ck, tier, seed):
     if not res.ok:
         ck.violation("model", f"Prelude specification inconsistent: {res.violation}", res.output[-2000:])
     work = lib.scratch("c17")
-    o1, o2, o3, o4, o5 = (os.path.join(work, x) for x in ("v.ndjson", "s.ndjson", "t.ndjson", "c.ndjson", "m.ndjson"))
-    r = lib.tlc("PreludeExport", "PreludeExport" + suffix, workers=1, timeout=1200, env={"OUT": o1, "OUT2": o2, "OUT3": o3, "OUT4": o4, "OUT5": o5}, heap="6g")
+    res = lib.tlc("PreludePinned", "PreludePinned", workers=1, timeout=1200)
+    if res.ok or "Assumption" not in (res.violation or ""):
+        raise lib.Infra("sanity: with CloneRange = FALSE the model must violate InputRangeKept, it did not (vacuous law)")
+    ck.notes.append("sanity: the model in which range(r) returns r itself violates InputRangeKept (expected)")
+    o1, o2, o3, o4, o5, o6 = (os.path.join(work, x) for x in ("v.ndjson", "s.ndjson", "t.ndjson", "c.ndjson", "m.ndjson", "r.ndjson"))
+    r = lib.tlc("PreludeExport", "PreludeExport" + suffix, workers=1, timeout=1200, env={"OUT": o1, "OUT2": o2, "OUT3": o3, "OUT4": o4, "OUT5": o5, "OUT6": o6}, heap="6g")
     if not r.ok:
         raise lib.Infra("Prelude export failed")
     cs = lib.read_ndjson(o1) + lib.read_ndjson(o2)
@@ -138,8 +173,21 @@ def run(ck, tier, seed):
     extra = [("c", c) for c in lib.read_ndjson(o4)] + [("m", c) for c in lib.read_ndjson(o5)]
     for i, (fam, c) in enumerate(extra):
         cases.append({"id": f"x{i}", "to": 30, "steps": [{"op": "eval", "src": extra_script(fam, c)}]})
+    rcs = lib.read_ndjson(o6)
+    for i, c in enumerate(rcs):
+        cases.append({"id": f"r{i}", "to": 30, "steps": [{"op": "eval", "src": range_script(c)}]})
     vdrive = lib.build("vdrive", "plain")
     obs, _ = lib.run_driver(vdrive, cases, work, tag="c17")
+    for i, c in enumerate(rcs):
+        o = obs[f"r{i}"]
+        ck.evaluations += 1
+        ck.nontrivial.add((c["form"] + ":" + c["fn"], str(c["cb"]), len(c["a"]), c["exp"]["t"]))
+        key = f"{c['fn']}({c['form']} of {vec(c['a'])}{',' + vec(c['b']) if c['b'] else ''},n={c['n']},cb={c['cb']})"
+        st = o.get("steps", [{}])[0] if "died" not in o else {"oc": "died"}
+        want = range_expected(c)
+        if st.get("oc") != "val" or st.get("v", "").replace("double:-0,", "double:0,") != want:
+            ck.violation(key, f"{range_script(c)} gave {st.get('v') or str(st.get('oc')) + ' ' + str(st.get('why'))}, specification [result, callback trace, what the range still spans, source] = {want}",
+                         {"case": c, "script": range_script(c), "expected": want, "observed": st})
     ck.exhaustive = True
     for i, c in enumerate(cs):
         o = obs[str(i)]
@@ -179,5 +227,5 @@ def run(ck, tier, seed):
                "{-1,0,1,size,size+1}; scalars -5..5; distinct = (function, callback, length, result kind)" % (3 if quick else 4))
     ck.sample({"script": script(cs[0]), "expected": expected(cs[0])})
     ck.sample({"script": script(cs[len(cs) // 2]), "expected": expected(cs[len(cs) // 2])})
-    ck.assumptions += ["strings as containers (trim family, take/drop/filter/reverse/concat), retro, find, collate, new and string vectors for join/to_string are covered; map inputs, find and the trim helpers are not in the exported family yet"]
+    ck.assumptions += ["range objects (range, retro, range of a range) as inputs of the algorithms that accept them, with the caller's range drained afterwards", "strings as containers (trim family, take/drop/filter/reverse/concat), retro, find, collate, new and string vectors for join/to_string are covered; map inputs, find and the trim helpers are not in the exported family yet"]
     lib.rm(work)
